@@ -152,11 +152,12 @@ def kernel_blur(e, site="nameplate"):
         t = e.sym_real("t")
         e.assume(t.z >= 0)
         app = _mk_app(e, B)
+        WHEN = [e.sym_real("when")]
         if site == "nameplate":
             kinds = dict(nameplates_id="i", claimed="i", side="s", added="r")
             vals = dict(nameplates_id=z3.IntVal(1), claimed=z3.IntVal(0), side=Z("s"), added=t.z)
             u = REAL_APPNS._summarize_nameplate_usage(app, [RowView(None, vals, {k: F for k in vals}, list(vals), kinds)],
-                                                      e.sym_real("when"), False)
+                                                      WHEN[0], False)
             v = Z(u.started)
         elif site == "mailbox":
             kinds = dict(mailbox_id="s", opened="i", side="s", added="r", mood="s")
@@ -164,7 +165,7 @@ def kernel_blur(e, site="nameplate"):
             nulls = {k: F for k in vals}
             nulls["mood"] = T
             u = REAL_APPNS._summarize_mailbox(app, [RowView(None, vals, nulls, list(vals), kinds)],
-                                              e.sym_real("when"), False)
+                                              WHEN[0], False)
             v = Z(u.started)
         else:
             usage = RelStore("usage")
@@ -178,6 +179,12 @@ def kernel_blur(e, site="nameplate"):
         Br = z3.ToReal(B.z)
         q = z3.ToInt(v / Br)
         A = {"C16.rounding": And(v <= t.z, t.z < v + Br, z3.ToReal(q) * Br == v)}
-        return PathResult(A, info=dict(site=site))
+        rp = None
+        if site in ("nameplate", "mailbox"):
+            spec = dict(added=(None, t.z, "r"))
+            if site == "mailbox":
+                spec["mood"] = (T, Z(""), "s")
+            rp = _kernel_replayer(site, [spec], WHEN[0], F, B, u)
+        return PathResult(A, info=dict(site=site), replayer=rp)
     finally:
         Engine.exact_arith = False
